@@ -11,6 +11,8 @@
 (*     <<"-">>                     an optional child that is absent        *)
 (*     <<"T", class, role>>        a token of the source text              *)
 (*     <<"V">>                     a semicolon supplied by 7.9 (no text)   *)
+(*     <<"R">>                     [no LineTerminator here] before the     *)
+(*                                 next token (restricted production)      *)
 (* and `nls`, the set of token indices that are preceded by a line         *)
 (* terminator.  Everything the properties quantify over - programs, their  *)
 (* trees, token roles, the tokens a node owns, which `/` is a division and *)
@@ -414,10 +416,14 @@ VirtualSemicolon ==
     /\ pend' = IF lastEnd = "" THEN "x" ELSE lastEnd
     /\ UNCHANGED <<ntok, need, nls, lastEnd, noLT>>
 
+\* [no LineTerminator here]: recorded in the product as <<"R">> so that the
+\* printing checks know the restricted positions
 Restricted ==
     /\ stack # <<>> /\ Head(stack)[1] = "r"
-    /\ stack' = Tail(stack) /\ noLT' = ("nolt" \notin Relax)
-    /\ UNCHANGED <<out, ntok, need, nls, pend, lastEnd>>
+    /\ LET f == Flush(Tail(stack), Append(out, <<"R">>)) IN
+        /\ stack' = f[1] /\ out' = f[2]
+    /\ noLT' = ("nolt" \notin Relax)
+    /\ UNCHANGED <<ntok, need, nls, pend, lastEnd>>
 
 EmitToken ==
     /\ stack # <<>> /\ Head(stack)[1] = "t"
